@@ -199,6 +199,22 @@ def declare(reg):
         loops={0: {"invariant": {"list-kept": "same(self.executing_tasks, lpre(self.executing_tasks))"}}},
         props=["C10"],
     )
+    # ---- IMAPClientCommand.ready_and_okay: however the wait or the command body ends, the command is marked completed (C10: otherwise it
+    #      stays on the executing list for ever and every later exclusive command starves; C06) ----
+    reg.contract("<asyncio>", "Queue.put_nowait", params={"self": "ref:Queue", "item": "ref:IMAPClientCommand"}, modifies=["self.g_items"], **T, note="A-ASYNC: appends to the FIFO")
+    reg.contract("<asyncio>", "Event.wait", params={"self": "ref:Event"}, yields=True, **T, note="A-ASYNC: returns once the event is set")
+    reg.contract(
+        "asimap/parse.py", "IMAPClientCommand.ready_and_okay", params={"self": "ref:IMAPClientCommand", "mbox": "ref:Mailbox"},
+        ensures={"completed": "self.completed"},
+        raises={"CancelledError": None, "Exception": None, "NoSuchMailbox": None},
+        exc_ensures={"completed-however-it-ended": "self.completed"},
+        modifies=["self.completed", "Queue.g_items"],
+        ghost={"cancellable": True},
+        is_async=True,
+        props=["C10", "C06"],
+        note="body of the async context manager, with `yield` read as: the with-block runs (may suspend, may raise anything); cancellation "
+             "(command watchdog, shutdown) is possible at every suspension point, including while the command is still waiting in the queue",
+    )
     HD_ = "('Deleted' in self.sequences and card(get(self.sequences, 'Deleted')) > 0)"
     reg.contract(
         P, "Mailbox.command_can_proceed", params={"self": "ref:Mailbox", "imap_cmd": "ref:IMAPClientCommand"},
@@ -228,6 +244,9 @@ def declare(reg):
     reg.contract(
         P, "Mailbox.management_task", params={"self": "ref:Mailbox"},
         raises={},
+        # when the task ends (it is cancelled by Mailbox.shutdown, possibly while it holds a command it has taken off the queue and is waiting
+        # to admit), no dequeued command is left waiting for its `ready` event: it would only be answered by the command watchdog (C06)
+        ensures={"no-dequeued-command-left-waiting": "cur_path_final('imap_cmd', 'ready.g_set', True)"},
         loops={0: {"invariant": {
             # wake-up obligation: whatever happened in an iteration (normal admission, BAD for an unresolvable set, resync),
             # the command taken from the queue in that iteration has been released
@@ -241,7 +260,7 @@ def declare(reg):
                   "self.last_resync", "self.mtime", "self.optional_resync", "self.msg_keys", "self.uids", "self.num_msgs", "self.num_recent", "self.sequences", "self.next_uid",
                   "self._msg_key_to_idx", "self._uid_to_idx", "self.attributes", "MH.g_seqs", "MH.g_keys", "MH.g_content", "*.pending_notifications", "ClientProxy.g_out",
                   "self.g_db_seqs", "self.g_db_exists", "self.g_db_uid_vv", "self.g_db_next_uid", "self.g_db_uids", "self.g_db_msg_keys", "self.g_db_subscribed", "self.g_db_num_msgs"],
-        ghost={"assume_pre_of": ["_pack_if_necessary", "check_new_msgs_and_flags", "msg_set_to_msg_seq_set"],
+        ghost={"cancellable": True, "assume_pre_of": ["_pack_if_necessary", "check_new_msgs_and_flags", "msg_set_to_msg_seq_set"],
                # the wake-up obligation must not depend on what the resync found: in particular not on "the mailbox only grows" (E1),
                # which would make the second message-set resolution infallible and its BAD branch dead
                "forget_post_of": {"check_new_msgs_and_flags": "*"}},
